@@ -301,6 +301,12 @@ def run_case(case):
             # hand over python scalars for 0-d fields, like the training loops do
             sample = {k: (v.item() if v.shape == () and rng.random() < 0.5 else v)
                       for k, v in sample.items()}
+            if rng.random() < 0.3:
+                # keyword arguments have no order: hand them over shuffled
+                ks = list(sample)
+                rng.shuffle(ks)
+                sample = {k: sample[k] for k in ks}
+                res.see("adds_with_shuffled_keywords")
             ok, _ = guarded(res, "C02/raises/add_sample", buf.add_sample, **sample)
             if not ok:
                 return res
